@@ -239,9 +239,22 @@ TCloseEnd ==
      ELSE IF AnyS.pc[t] # "idle" THEN Bad("NC:closed-directory-still-holds")
      ELSE Good(S, [D EXCEPT !.live[t] = None, !.busy[t] = FALSE, !.closing[t] = FALSE])
 
+\* Executor level (harness/idleinv/exec_test.go): Execute of the real
+\* localBuildExecutor has returned - the action has ended, normally, by an
+\* error or by cancellation.  Its build directory must have been closed
+\* (what closing has to achieve is judged at CloseEnd) and the invoker
+\* given back.
+TExecEnd ==
+  /\ IsEvent("ExecEnd")
+  /\ LET t == Line.t IN
+     IF t \notin Threads THEN Bad("NC:unknown-thread")
+     ELSE IF D.live[t] # None THEN Bad("C12:build-directory-not-removed-when-action-ended")
+     ELSE IF AnyS.pc[t] # "idle" THEN Bad("C12:action-ended-without-releasing-the-invoker")
+     ELSE Good(S, D)
+
 Known == {"reset", "AcqStart", "Cancel", "CleanStart", "CleanEnd", "AcqEnd", "RelStart", "RelEnd",
           "Quiescent", "Panic", "Mkdir", "Enter", "Remove", "RemoveAll", "GetEnd", "Populate",
-          "CloseStart", "Note", "CloseEnd"}
+          "CloseStart", "Note", "CloseEnd", "ExecEnd"}
 
 TUnknown ==
   /\ l <= Len(TraceLog) /\ Line.ev \notin Known /\ l' = l + 1
@@ -249,7 +262,7 @@ TUnknown ==
 
 TNext == /\ \/ TReset \/ TAcqStart \/ TCancel \/ TCleanStart \/ TCleanEnd \/ TAcqEnd
             \/ TRelStart \/ TRelEnd \/ TQuiescent \/ TPanic
-            \/ TMkdir \/ TEnter \/ TRemove \/ TGetEnd \/ TNote \/ TCloseStart \/ TCloseEnd \/ TUnknown
+            \/ TMkdir \/ TEnter \/ TRemove \/ TGetEnd \/ TNote \/ TCloseStart \/ TCloseEnd \/ TExecEnd \/ TUnknown
          /\ UNCHANGED st
 
 TraceSpec == TInit /\ [][TNext]_tvars
